@@ -1381,6 +1381,12 @@ func (c *immuClient) VerifiedSet(ctx context.Context, key []byte, value []byte) 
 		return nil, store.ErrCorruptedData
 	}
 
+	// tx was rebuilt from the returned entries (its Eh was recalculated): the header that is
+	// handed back to the caller must carry that same Eh
+	if len(verifiableTx.Tx.Header.EH) != sha256.Size || schema.DigestFromProto(verifiableTx.Tx.Header.EH) != tx.Header().Eh {
+		return nil, store.ErrCorruptedData
+	}
+
 	var sourceID, targetID uint64
 	var sourceAlh, targetAlh [sha256.Size]byte
 
@@ -1793,6 +1799,12 @@ func (c *immuClient) VerifiedSetReferenceAt(ctx context.Context, key []byte, ref
 		return nil, store.ErrCorruptedData
 	}
 
+	// tx was rebuilt from the returned entries (its Eh was recalculated): the header that is
+	// handed back to the caller must carry that same Eh
+	if len(verifiableTx.Tx.Header.EH) != sha256.Size || schema.DigestFromProto(verifiableTx.Tx.Header.EH) != tx.Header().Eh {
+		return nil, store.ErrCorruptedData
+	}
+
 	var sourceID, targetID uint64
 	var sourceAlh, targetAlh [sha256.Size]byte
 
@@ -1960,6 +1972,12 @@ func (c *immuClient) VerifiedZAddAt(ctx context.Context, set []byte, score float
 	}
 
 	if tx.Header().Eh != schema.DigestFromProto(vtx.DualProof.TargetTxHeader.EH) {
+		return nil, store.ErrCorruptedData
+	}
+
+	// tx was rebuilt from the returned entries (its Eh was recalculated): the header that is
+	// handed back to the caller must carry that same Eh
+	if len(vtx.Tx.Header.EH) != sha256.Size || schema.DigestFromProto(vtx.Tx.Header.EH) != tx.Header().Eh {
 		return nil, store.ErrCorruptedData
 	}
 
